@@ -29,14 +29,14 @@ using namespace cgreen;
 
 extern TestReporter *create_libxml_reporter(const char *prefix);
 
-#define MAXT 4096
+#define MAXT 1024
 #define MAXS 1024
 #define MAXA 400000
 
 typedef struct { char kind; int arg; } ActC;      /* P F S p(MP) f(MF) K E U Z */
 typedef struct {
-    char path[1024];
-    char name[128];
+    char path[8192];
+    char name[6000];
     int xskip, ctx;
     ActC *body, *setup, *teardown;
     int nbody, nsetup, nteardown;
@@ -61,14 +61,14 @@ static void current_path(char *buf) {
 }
 
 static void log_event(const char *phase) {
-    char path[2048], line[2300];
+    static char path[70000], line[71000];
     current_path(path);
     int n = snprintf(line, sizeof line, "ev %d %s %s\n", getpid() == main_pid ? 0 : (int)getpid(), path, phase);
     if (write(events_fd, line, n) != n) abort();
 }
 
 static TestC *current(void) {
-    char path[2048];
+    static char path[70000];
     current_path(path);
     for (int i = 0; i < ntests; i++)
         if (strcmp(tests[i].path, path) == 0) return &tests[i];
@@ -170,7 +170,7 @@ int main(int argc, char **argv) {
     for (int i = 0; i < 256; i++) { char nm[16]; snprintf(nm, sizeof nm, "mf%d", i); mock_names[i] = strdup(nm); }
 
     TestSuite *stack[MAXS];
-    char paths[64][1024];
+    static char paths[MAXS][8192];
     int sp = 0;
     TestSuite *root = NULL;
     char mode[256] = "fork";
@@ -180,8 +180,8 @@ int main(int argc, char **argv) {
             int cap;
             sscanf(buf, "cfg %d %255s", &cap, mode);
         } else if (!strncmp(buf, "begin ", 6)) {
-            char name[128]; int su, td;
-            sscanf(buf, "begin %127s %d %d", name, &su, &td);
+            static char name[6000]; int su, td;
+            sscanf(buf, "begin %5999s %d %d", name, &su, &td);
             TestSuite *s = create_named_test_suite_(strdup(name), "scenario", 1);
             if (su) set_setup(s, suite_setup);
             if (td) set_teardown(s, suite_teardown);
@@ -193,7 +193,7 @@ int main(int argc, char **argv) {
         } else if (!strncmp(buf, "test ", 5)) {
             TestC *t = &tests[ntests++];
             int off = 0;
-            sscanf(buf, "test %127s %d %d %n", t->name, &t->xskip, &t->ctx, &off);
+            sscanf(buf, "test %5999s %d %d %n", t->name, &t->xskip, &t->ctx, &off);
             char *rest = buf + off;
             char *b = rest, *s = strchr(rest, ';'), *d;
             *s++ = 0; d = strchr(s, ';'); *d++ = 0;
